@@ -97,7 +97,7 @@ Qed.
 Definition acc_cons (s : state) (evs : list event) : Prop :=
   forall id, sumf (w_cons id) evs + tokens id s + inmap id s <= sumf (w_reg id) evs.
 
-(* Spec: every completion, every callback taken and not yet run, and the stored callback is paid
+(* Impl: every completion, every callback taken and not yet run, and the stored callback is paid
    for by a fire *)
 Definition acc_compl (s : state) (evs : list event) : Prop :=
   sumf w_compl evs + cbtokens s + onall1 s <= sumf w_fire evs.
@@ -251,8 +251,8 @@ Proof.
   - (* check *)
     intros id. specialize (Hacc id). unfold r_check. set (l := get_local s r).
     destruct (l_hit l); cbn -[mset mfind mremove Z.add tokens inmap]; rewrite !sumf_app; cbn -[mset mfind mremove Z.add tokens inmap]; [|lia].
-    set (on' := match v with Impl => on_all s
-                | Spec => if match outstanding s with [] => true | _ => false end then false else on_all s end).
+    set (on' := match v with Prefix => on_all s
+                | Impl => if match outstanding s with [] => true | _ => false end then false else on_all s end).
     set (s1 := mkSt (seqc s) (outstanding s) (queue s) (fired s) on' (proto_ok s) (locals s)).
     set (x := mkLocal (l_id l) (l_fired l) (l_tok l) true
                       match outstanding s with [] => true | _ => false end
@@ -271,7 +271,7 @@ Proof.
   - (* fire *)
     intros id. specialize (Hacc id). unfold f_fire. set (l := get_local s r).
     cbn -[mset mfind mremove Z.add tokens inmap]. rewrite !sumf_app. cbn -[mset mfind mremove Z.add tokens inmap].
-    set (on' := match v with Impl => true | Spec => negb match queue s with [] => true | _ => false end end).
+    set (on' := match v with Prefix => true | Impl => negb match queue s with [] => true | _ => false end end).
     set (s1 := mkSt (seqc s) (outstanding s) [] true on' (proto_ok s) (locals s)).
     set (x := mkLocal (l_id l) (l_fired l) (l_tok l) false false
                       match queue s with [] => true | _ => false end (queue s)).
@@ -301,7 +301,7 @@ Proof.
       with (inmap id s). lia.
 Qed.
 
-(* ---------- the completion callback runs at most once per fire (Spec) ---------- *)
+(* ---------- the completion callback runs at most once per fire (Impl = the code as it is) ---------- *)
 
 Lemma send_more_on_all n tag s : on_all (fst (send_more n tag s)) = on_all s.
 Proof.
@@ -327,7 +327,7 @@ Proof.
 Qed.
 
 Lemma step_acc_compl a s evs :
-  is_action Spec a -> acc_compl s evs -> acc_compl (fst (a s)) (evs ++ snd (a s)).
+  is_action Impl a -> acc_compl s evs -> acc_compl (fst (a s)) (evs ++ snd (a s)).
 Proof.
   unfold acc_compl. intros Ha Hacc. rewrite !sumf_app. destruct Ha.
   - (* alloc *)
@@ -691,7 +691,7 @@ Qed.
 Definition good (v : variant) (s : state) (evs : list event) : Prop :=
   acc_cons s evs /\ justified s evs
   /\ (forall id, sumf (w_backend id) evs <= sumf (w_cons id) evs)
-  /\ (v = Spec -> acc_compl s evs).
+  /\ (v = Impl -> acc_compl s evs).
 
 Lemma good_step v a s evs : is_action v a -> good v s evs -> good v (fst (a s)) (evs ++ snd (a s)).
 Proof.
@@ -759,11 +759,11 @@ Proof.
 Qed.
 
 Lemma completion_at_most_once_all pok n ts sched :
-  actions_only Spec ts ->
+  actions_only Impl ts ->
   let evs := events (run ts sched (init pok n)) in
   count_completion evs <= count_fire evs.
 Proof.
-  intros Ht evs. destruct (all_schedules_good Spec pok n ts sched Ht) as (_ & _ & _ & G4).
+  intros Ht evs. destruct (all_schedules_good Impl pok n ts sched Ht) as (_ & _ & _ & G4).
   specialize (G4 eq_refl). unfold acc_compl in G4. rewrite count_completion_sum, count_fire_sum.
   fold evs in G4. lia.
 Qed.
@@ -804,17 +804,18 @@ Proof.
   unfold s1, set_local; simpl. rewrite El. discriminate.
 Qed.
 
-(* the recorded defect: the code as it is runs the completion twice with one fire *)
+(* finding C13-1, a fact about the PRE-fix code: it ran the completion twice with one fire;
+   the code as it is (Impl) runs it once on the same history *)
 Definition refuting_history : list op :=
   [OFire; OSend (CPlain 1) [1%N]; OResponse 1 true []].
 
-Lemma impl_completion_refuted_witness :
-  let evs := concat (snd (run_ops Impl (init true 1) refuting_history)) in
+Lemma prefix_completion_refuted_witness :
+  let evs := concat (snd (run_ops Prefix (init true 1) refuting_history)) in
   count_fire evs = 1 /\ count_completion evs = 2
-  /\ count_completion (concat (snd (run_ops Spec (init true 1) refuting_history))) = 1.
+  /\ count_completion (concat (snd (run_ops Impl (init true 1) refuting_history))) = 1.
 Proof. vm_compute. repeat split; reflexivity. Qed.
 
-(* ---------- Spec, whole calls: the completion runs exactly once ---------- *)
+(* ---------- Impl, whole calls: the completion runs exactly once ---------- *)
 
 
 Lemma send_more_fired n tag s : fired (fst (send_more n tag s)) = fired s.
@@ -878,7 +879,7 @@ Qed.
 (* the event: with nothing queued the completion runs now and no callback is kept *)
 Lemma fire_seq s :
   locals s <> [] ->
-  let r := step_op Spec s OFire in
+  let r := step_op Impl s OFire in
   fired (fst r) = true /\ outstanding (fst r) = outstanding s
   /\ on_all (fst r) = negb (is_nil (queue s))
   /\ count_completion (snd r) = (if is_nil (queue s) then 1 else 0)
@@ -889,7 +890,7 @@ Proof.
   set (x1 := mkLocal (l_id l) (l_fired l) (l_tok l) false false empty (queue s)).
   set (s1 := set_local (mkSt (seqc s) (outstanding s) [] true (negb empty) (proto_ok s) (locals s)) 0 x1).
   assert (G1 : get_local s1 0 = x1) by (eapply get_set_local0; simpl; eauto).
-  assert (A1 : f_fire Spec 0 s = (s1, [EFire])) by reflexivity.
+  assert (A1 : f_fire Impl 0 s = (s1, [EFire])) by reflexivity.
   assert (Hl1 : locals s1 <> []) by (unfold s1, set_local; simpl; rewrite El; discriminate).
   unfold step_op, fire_thread. rewrite (run_actions_cons _ _ _ _ _ A1).
   unfold run_actions. unfold f_flush. rewrite G1. cbn [l_msgs l_cb x1].
@@ -909,7 +910,7 @@ Qed.
    kept callback (if any) runs and is dropped *)
 Lemma response_hit_seq s id k ok data :
   locals s <> [] -> mfind id (outstanding s) = Some k ->
-  let r := step_op Spec s (OResponse id ok data) in
+  let r := step_op Impl s (OResponse id ok data) in
   let done := is_nil (outstanding (fst r)) in
   fired (fst r) = fired s
   /\ on_all (fst r) = (if done then false else on_all s)
@@ -972,7 +973,7 @@ Proof.
   set (x4 := mkLocal (l_id l) (l_fired l) None true done (done && on_all s3) (l_msgs l)).
   set (s4 := set_local (mkSt (seqc s3) (outstanding s3) (queue s3) (fired s3)
                              (if done then false else on_all s3) (proto_ok s3) (locals s3)) 0 x4).
-  assert (A3 : r_check Spec 0 s3 = (s4, [])).
+  assert (A3 : r_check Impl 0 s3 = (s4, [])).
   { unfold r_check. rewrite G3. cbn [l_hit x2 l_id l_fired l_tok l_msgs]. reflexivity. }
   assert (G4 : get_local s4 0 = x4) by (eapply get_set_local0; simpl; eauto).
   assert (El4 : locals s4 = x4 :: ls) by (unfold s4, set_local; simpl; now rewrite El3).
@@ -981,7 +982,7 @@ Proof.
                if done && on_all s3 then (set_local s4 0 x5, [ECompletion]) else (s4, [])).
   { unfold r_complete. rewrite G4. cbn [l_hit l_done l_cb x4 l_id l_fired l_tok l_msgs].
     destruct done, (on_all s3); reflexivity. }
-  assert (Hres : step_op Spec s (OResponse id ok data) =
+  assert (Hres : step_op Impl s (OResponse id ok data) =
                  if done && on_all s3
                  then (set_local s4 0 x5, [EResp id a] ++ e3 ++ [ECompletion])
                  else (s4, [EResp id a] ++ e3)).
@@ -1066,7 +1067,7 @@ Qed.
 
 Lemma K_step s c o :
   K s c -> adm (fired s) [o] = true ->
-  let r := step_op Spec s o in
+  let r := step_op Impl s o in
   K (fst r) (c + count_completion (snd r))
   /\ fired (fst r) = (match o with OFire => true | _ => fired s end)
   /\ (0 < count_completion (snd r) -> outstanding (fst r) = []).
@@ -1079,7 +1080,7 @@ Proof.
   - simpl in Ha. rewrite andb_true_r in Ha. rewrite Ha in HK'.
     destruct (mfind id (outstanding s)) as [k|] eqn:Hf.
     + destruct (response_hit_seq s id k ok data Hl Hf) as (F & O & C & _ & _ & _ & L & _).
-      set (r := step_op Spec s (OResponse id ok data)) in *. cbv zeta in *.
+      set (r := step_op Impl s (OResponse id ok data)) in *. cbv zeta in *.
       split; [|split; [exact F|]].
       * split; [exact L|]. rewrite F, Ha, O, C.
         destruct (outstanding (fst r)) as [|x xs] eqn:Eo; cbn [is_nil andb].
@@ -1088,15 +1089,15 @@ Proof.
            ++ left. repeat split; auto; [lia|discriminate].
            ++ right. split; auto. lia.
       * rewrite C. destruct (outstanding (fst r)); cbn [is_nil andb]; [auto|lia].
-    + destruct (unknown_ignored_seq Spec s id ok data Hl Hf) as (E & _ & O & Q & F & A & L).
-      set (r := step_op Spec s (OResponse id ok data)) in *. cbv zeta in *.
+    + destruct (unknown_ignored_seq Impl s id ok data Hl Hf) as (E & _ & O & Q & F & A & L).
+      set (r := step_op Impl s (OResponse id ok data)) in *. cbv zeta in *.
       rewrite E. cbn [count_completion filter length]. rewrite Nat.add_0_r.
       split; [|split; [exact F|lia]].
       split; [exact L|]. rewrite F, Ha, A, O. exact HK'.
   - simpl in Ha. rewrite andb_true_r in Ha. apply negb_true_iff in Ha. rewrite Ha in HK'.
     destruct HK' as (Hon & Hc & Hq).
     destruct (fire_seq s Hl) as (F & O & A & C & L & _).
-    set (r := step_op Spec s OFire) in *. cbv zeta in *.
+    set (r := step_op Impl s OFire) in *. cbv zeta in *.
     split; [|split; [exact F|]].
     + split; [exact L|]. rewrite F, A, C, O.
       destruct (queue s) as [|m ms] eqn:Eq; cbn [is_nil negb].
@@ -1108,7 +1109,7 @@ Qed.
 
 Lemma K_run os : forall s c,
   K s c -> adm (fired s) os = true ->
-  let r := run_ops Spec s os in
+  let r := run_ops Impl s os in
   K (fst r) (c + count_completion (concat (snd r))).
 Proof.
   induction os as [|o os IH]; intros s c HK Ha.
@@ -1118,19 +1119,19 @@ Proof.
       - apply andb_true_iff in Ha. destruct Ha as [-> _]. reflexivity.
       - apply andb_true_iff in Ha. destruct Ha as [-> _]. reflexivity. }
     destruct (K_step s c o HK Ha1) as (H1 & H2 & _).
-    cbn [run_ops]. destruct (step_op Spec s o) as [s1 e1] eqn:E1. cbn [fst snd] in *.
+    cbn [run_ops]. destruct (step_op Impl s o) as [s1 e1] eqn:E1. cbn [fst snd] in *.
     assert (Ha2 : adm (fired s1) os = true).
     { rewrite H2. destruct o; simpl in Ha; auto.
       - apply andb_true_iff in Ha. tauto.
       - apply andb_true_iff in Ha. tauto.
       - discriminate. }
-    specialize (IH s1 _ H1 Ha2). destruct (run_ops Spec s1 os) as [s2 es]. cbn [fst snd concat] in *.
+    specialize (IH s1 _ H1 Ha2). destruct (run_ops Impl s1 os) as [s2 es]. cbn [fst snd concat] in *.
     rewrite count_completion_app. now rewrite Nat.add_assoc.
 Qed.
 
-Lemma completion_exactly_once_spec pok n os :
+Lemma completion_exactly_once_impl pok n os :
   0 < n -> adm false os = true ->
-  let r := run_ops Spec (init pok n) os in
+  let r := run_ops Impl (init pok n) os in
   let c := count_completion (concat (snd r)) in
   c <= 1
   /\ (fired (fst r) = false -> c = 0)
@@ -1143,7 +1144,7 @@ Proof.
     - unfold init; simpl. destruct n; [lia|discriminate].
     - simpl. repeat split; auto. }
   pose proof (K_run os (init pok n) 0 K0 Ha) as [_ HK]. cbv zeta in *. simpl plus in HK.
-  set (r := run_ops Spec (init pok n) os) in *.
+  set (r := run_ops Impl (init pok n) os) in *.
   destruct (fired (fst r)) eqn:Ef.
   - destruct HK as [(Hon & Hc & Ho)|(Hon & Hc)]; rewrite Hc.
     + split; [lia|]. split; [discriminate|]. split; [intros _ E; contradiction|]. intros _ _ _. exact Hon.
@@ -1163,7 +1164,7 @@ Proof.
 Qed.
 
 Definition nv_check : bool :=
-  let outs_ := outcomes (nv_threads Spec) (init true 3) in
+  let outs_ := outcomes (nv_threads Impl) (init true 3) in
   forallb (fun r => (count_cons 1 (events r) <=? 1) && (count_completion (events r) <=? 1)
                     && (count_reg 1 (events r) =? 1) && (count_fire (events r) =? 1)) outs_
   && existsb (fun r => (count_cons 1 (events r) =? 1) && (count_completion (events r) =? 1)) outs_
@@ -1179,7 +1180,7 @@ Definition nv_history : list op :=
 
 Lemma nv_history_ok :
   adm false nv_history = true
-  /\ let r := run_ops Spec (init true 1) nv_history in
+  /\ let r := run_ops Impl (init true 1) nv_history in
      fired (fst r) = true /\ outstanding (fst r) = []
      /\ count_completion (concat (snd r)) = 1
      /\ In (EBackend 2 7 (Some [9%N])) (concat (snd r))
